@@ -337,6 +337,10 @@ func runHistories(r *ev.Run) {
 		// step of the election makes replicas disagree
 		variants = append(variants, chain.GenesisOptions{Escrow: []uint64{1500, 2000, 2500}, MaxValidators: 2, EpochInterval: 1, NodeExpiration: 12})
 	}
+	if prop == "C05" || prop == "C10" || (prop == "C01" && r.Thorough()) {
+		// a vault at genesis: funds held by a module account with a withdraw hook, actions that execute inner messages
+		variants = append(variants, chain.GenesisOptions{Vault: true, EpochInterval: 3})
+	}
 	if prop == "C05" && r.Thorough() {
 		variants = append(variants, chain.GenesisOptions{MinTransactBalance: 10, LastBlockFees: 7, EpochInterval: 2})
 	}
